@@ -181,7 +181,7 @@ def u_exact(levels, lv):
     if lv["disable"]:
         return Fr(lv["u"])
     for o in levels:
-        if o["exact_col"] is not None and o["exact_col"] == lv["tf_col"]:
+        if G.ecols(o) == [lv["tf_col"]]:
             return Fr(o["u"])
     return None
 
@@ -329,7 +329,9 @@ def outcomes_rows(case, lk, rowpairs):
         for ci, comp in enumerate(case["spec"]["comparisons"]):
             for li, lv in enumerate(comp["levels"]):
                 a, b = rl.get(lv["col"]), rr.get(lv["col"])
-                if lv["kind"] == "null":
+                if lv["kind"] == "null" and lv.get("both"):
+                    exp = int(all(rl.get(c) is None or rr.get(c) is None for c in lv["both"]))
+                elif lv["kind"] == "null":
                     exp = int(a is None or b is None)
                 elif lv["kind"] == "exact":
                     exp = 2 if (a is None or b is None) else int(a == b)
